@@ -277,7 +277,7 @@ def check(case):
     t = bm.topology_from_file(nc)
     tpd = numpy.asarray(nc["total_poloidal_distance"])
     nxf = nc["Rxy"].shape[0]
-    has_core = t["ixseps1"] > 0 and not (t["jyseps1_1"] < 0 and t["ixseps1"] < nxf)
+    has_core = t["ixseps1"] > 0 and not (t["jyseps1_1"] < 0 and t["ixseps1"] < nxf) and bm.n_core_cells(t) > 0
     ix_in = min(t["ixseps1"], t["ixseps2"], nxf) if t["jyseps2_1"] != t["jyseps1_2"] else min(t["ixseps1"], nxf)
     for x in range(nxf):
         closed = has_core and x < ix_in
